@@ -47,6 +47,7 @@ static const char *const handover_fns[] = { "upipe_xfer_mgr_detach", "upipe_qsrc
 /* Compiled twice: -DQUEUE_PROP=6 (default) judges delivery, order, flow definitions, threads and stalls (C06);
  * -DQUEUE_PROP=1 runs the same histories for C01 and judges only the end-of-case audit (everything destroyed exactly
  * once, nothing left allocated); -DQUEUE_PROP=5 judges delivery only, for C05; sanitizer reports count in all. */
+static _Bool ctx_overflow;
 #ifndef QUEUE_PROP
 #define QUEUE_PROP 6
 #endif
@@ -64,7 +65,9 @@ static const char *const handover_fns[] = { "upipe_xfer_mgr_detach", "upipe_qsrc
 #define KEY_ACTIVE(key) (!strncmp(key, "delivery/", 9) || !strncmp(key, "stall/", 6))
 #else
 #define PID "C06"
-#define KEY_ACTIVE(key) (strncmp(key, "audit/", 6) != 0)
+/* (overflow mode, C06 only: the command queue of the xfer manager and the event queue of the xfer pipes are 1-2 messages long and
+ * overflow; what is lost then is not stated anywhere, so only the thread rules and the sanitizer judge those cases) */
+#define KEY_ACTIVE(key) (strncmp(key, "audit/", 6) != 0 && (!ctx_overflow || !strncmp(key, "thread/", 7)))
 #endif
 #define MAXITEMS 64
 #define MAXSP 16
@@ -80,7 +83,7 @@ enum { R_REMOTE = 0, R_SOURCE, R_TAP, R_PSEUDO };
 
 enum { CL_INFLIGHT, CL_FLUSH_STALL, CL_FLOWDEF_MID, CL_RELEASE_RACE, CL_TWO_PRODUCERS, CL_WLIN, CL_WSINK, CL_WSRC,
        CL_STALLED, CL_SRC_BLOCKED, CL_LONGQ, CL_PREEMPTED, CL_FROZEN_CTRL, CL_EVENTS_FWD, CL_PSEUDO_OUT, CL_DELIVERED8,
-       CL_PROBE_FREEZE, CL_MUTEX, CL_REATTACH, CL_FLUSH, CL_CHAIN2, CL_RELEASE_SRC_FIRST, CL_MAXLEN, CL_REAL_THREAD, CL_APP_FREEZE, CL_REATTACH_OTHER, CL_QSINK_MOVED, CL_QSINK_MOVED_WATCHING };
+       CL_PROBE_FREEZE, CL_MUTEX, CL_REATTACH, CL_FLUSH, CL_CHAIN2, CL_RELEASE_SRC_FIRST, CL_MAXLEN, CL_REAL_THREAD, CL_APP_FREEZE, CL_REATTACH_OTHER, CL_QSINK_MOVED, CL_QSINK_MOVED_WATCHING, CL_OVERFLOW };
 static const char *const class_names[] = {
     "inflight_gt_queue_length", "flush_during_stall", "flow_def_change_in_mid_stream", "release_with_undelivered_buffers",
     "two_producers", "topology_wlin", "topology_wsink", "topology_wsrc",
@@ -88,7 +91,7 @@ static const char *const class_names[] = {
     "events_forwarded", "pseudo_output_set_and_cleared", "delivered_ge_8",
     "probe_frozen_during_alloc", "xfer_mutex", "upump_mgr_reattached", "flush", "remote_chain_of_2", "source_released_before_sinks",
     "set_max_length", "real_loop_thread_pthread_transfer", "forwarded_control_inside_application_freeze", "queue_source_moved_to_another_loop",
-    "queue_sink_moved_to_another_loop_and_back", "queue_sink_moved_while_it_had_watchers", NULL };
+    "queue_sink_moved_to_another_loop_and_back", "queue_sink_moved_while_it_had_watchers", "xfer_queues_of_1_or_2_messages_overflowing", NULL };
 
 struct ctx;
 
@@ -107,6 +110,7 @@ struct sprobe {             /* per-pipe probe: side rule + event log */
     struct ctx *c;
     int id, side;
     bool live;
+    bool under_xfer;        /* sits below a transfer probe (uprobe_xfer): the events registered there never come this way */
     const char *name;
 };
 
@@ -141,7 +145,7 @@ struct ctx {
     int topo, nsinks, far_side;
     struct bth *bth;                /* real loop thread (worker topologies, tape-chosen): see "real loop thread" below */
     struct uprobe *pth_probe;       /* the real uprobe_pthread_upump_mgr serving both threads in that mode */
-    unsigned qlen, qlen2, xlen;
+    unsigned qlen, qlen2, xlen; bool overflow, abandon;   /* abandon: (overflow mode) an assumption of the harness about what the lost message would have done no longer holds: the history stops, the tail releases everything */
     /* pipes held by the application */
     struct upipe *sink[2], *qsrc, *worker, *tap, *farsink, *pseudo;
     bool sink_released[2];
@@ -194,10 +198,12 @@ static struct ctx ctx;
 
 /* after a reported violation pipes may be stuck for good: their memory is not a second finding */
 int __lsan_is_turned_off(void) { return ctx.ret != 0; }
+void __lsan_disable(void);
+void __lsan_enable(void);
 
 #define R(...) do { if (c->render) vp_render(c->rep, __VA_ARGS__); } while (0)
 #define FAIL(key, ...) do { if (!c->ret && KEY_ACTIVE(key)) { c->ret = vp_fail(c->rep, PID "/" key, __VA_ARGS__); R("    !! %s\n", c->rep->msg); } } while (0)
-#define INTERNAL(...) do { if (c->ret != 2) { c->rep->key[0] = 0; c->ret = vp_internal(c->rep, __VA_ARGS__); R("    !! internal: %s\n", c->rep->msg); } } while (0)
+#define INTERNAL(...) do { if (ctx_overflow) { c->abandon = true; break; } if (c->ret != 2) { c->rep->key[0] = 0; c->ret = vp_internal(c->rep, __VA_ARGS__); R("    !! internal: %s\n", c->rep->msg); } } while (0)
 #define CLS(b) (c->classes |= 1ull << (b))
 
 static const char *side_name(int s) { return s == SA ? "A" : s == SB ? "B" : "-"; }
@@ -452,12 +458,17 @@ static int sprobe_throw(struct uprobe *uprobe, struct upipe *upipe, int event, v
             va_end(ap);
             if (ulog->level >= UPROBE_LOG_WARNING) { char txt[96]; ulog_msg_print(ulog, txt, sizeof txt); R("      %s log(%d): %s\n", sp->name, ulog->level, txt); }
         }
+        /* a message logged on an application-side pipe comes from the application's thread too (its probes are not thread-safe) */
+        if (sp->side == SA && cur_side(c) != SA)
+            FAIL("thread/event", "a message of application-side pipe '%s' was logged from thread %s", sp->name, side_name(cur_side(c)));
         return UBASE_ERR_NONE;
     }
     int side = cur_side(c);
     R("      [%s] %s %s\n", side_name(side), sp->name, pfx_event_name(event));
     /* thread rule: an application-side pipe throws in thread A; a remote-side pipe, once transferred, in thread B
      * (or in thread A while the remote loop is frozen) */
+    if (sp->under_xfer && (event == UPROBE_SOURCE_END || event == MOCK_EV_U64 || event == MOCK_EV_LOCAL))
+        FAIL("thread/event", "event %s, registered with the transfer probe of '%s' for the application's thread, was passed on to the next probe in thread %s", pfx_event_name(event), sp->name, side_name(side));
     bool ok = true;
     if (sp->side == SA) ok = side == SA;
     else if (sp->side == SB && c->transferred) ok = side == SB || (side == SA && c->mutex_locked);
@@ -647,7 +658,7 @@ static void mock_input(struct upipe *upipe, struct uref *uref, struct upump **up
         /* events for the application, as long as the event queue of the xfer pipe (which also carries DEAD) cannot overflow */
         {
             unsigned out = (c->ev_thrown_local[m->id] - c->ev_recv_local[m->id]) + (c->ev_thrown_u64[m->id] - c->ev_recv_u64[m->id]);
-            if (m->forwards && out + 4 <= c->xlen && c->ev_thrown_local[m->id] < 0xfff0) {
+            if (m->forwards && (out + 4 <= c->xlen || c->overflow) && c->ev_thrown_local[m->id] < 0xfff0) {
                 unsigned n = c->ev_thrown_local[m->id]++;
                 upipe_throw(upipe, MOCK_EV_LOCAL, MOCK_SIG, (unsigned long)((unsigned long)m->id << 16 | n));
                 n = c->ev_thrown_u64[m->id]++;
@@ -808,6 +819,10 @@ static void mock_source_cb(struct upump *upump)
     R("      [B] remote source emits seq=%lld (definition version %d)\n", (long long)(c->next_seq - 1), c->ver[0]);
     upipe_input(m->output, uref, &m->pump);
     note_inflight(c);
+    if (c->overflow) {      /* (overflow mode) events for the application with every buffer: its event queue is full when the source ends */
+        unsigned n = c->ev_thrown_u64[m->id]++;
+        upipe_throw(&m->upipe, MOCK_EV_U64, (uint64_t)((uint64_t)m->id << 16 | n));
+    }
     if (c->src_sent >= c->src_total) {
         upump_stop(upump);
         c->src_ended = true;
@@ -1141,6 +1156,7 @@ static struct uprobe *remote_chain(struct ctx *c, const char *name, bool with_xf
     if (p == NULL || !with_xfer) return p;
     struct uprobe *x = uprobe_xfer_alloc(p);
     if (x == NULL) { uprobe_release(p); return NULL; }
+    container_of(p, struct sprobe, uprobe)->under_xfer = true;
     uprobe_xfer_add(x, UPROBE_XFER_VOID, UPROBE_SOURCE_END, 0);
     uprobe_xfer_add(x, UPROBE_XFER_UINT64_T, MOCK_EV_U64, 0);
     uprobe_xfer_add(x, UPROBE_XFER_UNSIGNED_LONG_LOCAL, MOCK_EV_LOCAL, MOCK_SIG);
@@ -1285,6 +1301,7 @@ static int run(const uint8_t *tape, size_t len, struct vp_report *rep, unsigned 
     struct ctx *c = &ctx;
     symbolizer_ok();
     memset(c, 0, sizeof(*c));
+    ctx_overflow = false;
     tp_init(&c->t, tape, len);
     c->rep = rep; c->render = flags & VP_RENDER; c->flags = flags; c->hash = VP_HASH_INIT;
     c->sp_qsrc = c->sp_work = -1; c->last_delivered_idx[0] = c->last_delivered_idx[1] = -1;
@@ -1297,6 +1314,9 @@ static int run(const uint8_t *tape, size_t len, struct vp_report *rep, unsigned 
     c->qlen = qlen_decode(b1, worker);
     c->qlen2 = qlen_decode(b2, worker);
     c->xlen = (unsigned[]){ 255, 64, 32 }[(b3 / 3) % 3];   /* >= the 24 commands a case can queue while loop B never runs */
+#if QUEUE_PROP == 6
+    if (worker && b3 >= 216) { c->overflow = ctx_overflow = true; c->xlen = 1 + b3 % 2; __lsan_disable(); }
+#endif
     struct pfx_cfg cfg = { .pool_depth = (int[]){ 0, 1, 4 }[b3 % 3], .with_uref_mgr = true, .with_ubuf_mem = true, .with_upump_mgr = false, .with_uclock = true };
     if (pfx_init(&c->pfx, &cfg) != 0) return vp_internal(rep, "pfx_init");
     c->loop[SA] = c->pfx.loop;
@@ -1330,7 +1350,7 @@ static int run(const uint8_t *tape, size_t len, struct vp_report *rep, unsigned 
     }
 
     int maxops = (flags & VP_THOROUGH) ? 200 : 80;
-    while (!tp_done(&c->t) && c->nops < maxops && !c->ret) {
+    while (!tp_done(&c->t) && c->nops < maxops && !c->ret && !c->abandon) {
         c->nops++;
         uint8_t b = tp_u8(&c->t);
         unsigned op = b & 15, a = b >> 4;
@@ -1431,6 +1451,7 @@ static int run(const uint8_t *tape, size_t len, struct vp_report *rep, unsigned 
     rep->case_hash = c->hash;
     rep->classes |= c->classes;
     rep->excluded += c->excluded;
+    if (c->overflow) { CLS(CL_OVERFLOW); rep->classes |= c->classes; __lsan_enable(); }
     rep->nontrivial = (c->classes & (1u << CL_INFLIGHT)) &&
                       (c->classes & ((1u << CL_FLUSH_STALL) | (1u << CL_FLOWDEF_MID) | (1u << CL_RELEASE_RACE)));
     return c->ret;
